@@ -48,10 +48,12 @@ TIME_LIMIT = {'quick': 300, 'thorough': 1800}
 
 
 def reach(o, acc):
-    """ids of the mutable objects reachable from a cell/held object"""
+    """ids of the objects with changeable state (door status, box content) reachable from a cell/held object; objects without any
+    changeable field (Floor, Wall, Key, ...) may be shared without either state being able to affect the other"""
     if o is None:
         return
-    acc[id(o)] = o
+    if isinstance(o, (Door, Box)):
+        acc[id(o)] = o
     if isinstance(o, Box):
         reach(o.content, acc)
 
@@ -123,7 +125,7 @@ def mk_observation(fname, H, W, area):
         sx.cover('observation')
         input_untouched(sx, state, world, pose0, 'observation')
         sx.check(ob.grid is not state.grid and ob.grid.objects is not state.grid.objects, 'observation-grid-is-a-fresh-container')
-        sx.check(all(type(r) is list for r in ob.grid.objects) and len({id(r) for r in ob.grid.objects}) == len(ob.grid.objects), 'observation-rows-are-fresh-lists')
+        sx.check(len({id(r) for r in ob.grid.objects}) == len(ob.grid.objects), 'observation-rows-are-distinct-containers')
         sx.check(ob.agent is not state.agent and ob.agent.transform is not state.agent.transform, 'observed-agent-is-a-fresh-object')
         # writing into the observation afterwards does not reach the state
         ob.grid[0, 0] = Wall()
@@ -266,7 +268,7 @@ def h_history_dijkstra(sx):
     s0 = layout_state(BASE, (ay, ax), (2, 2))
     s1 = transition_with_copy(transition('move_agent'), s0, a)
     q = partial(RF.getting_closer_shortest_path, object_type=Exit, reward_closer=1.0, reward_further=-1.0)
-    RF.dijkstra.cache_clear()
+    getattr(RF.dijkstra, 'cache_clear', lambda: None)()
     first = q(s0, a, s1)
     # intervening calls: a symbolic sequence from the menu
     n = int(sx.int('n', 0, 2))
@@ -297,8 +299,9 @@ def h_history_dijkstra(sx):
     sx.check(again == first, 'same-question-same-answer', f'{first} then {again}')
     layout = tuple(tuple(c != '#' for c in r) for r in BASE)
     cached = RF.dijkstra(layout, (2, 2))
-    fresh = RF.dijkstra.__wrapped__(layout, (2, 2))
-    sx.check(np.array_equal(cached, fresh), 'cached-distance-table-equals-fresh-computation')
+    uncached = getattr(RF.dijkstra, '__wrapped__', None)
+    if uncached is not None:
+        sx.check(np.array_equal(cached, uncached(layout, (2, 2))), 'cached-distance-table-equals-fresh-computation')
     # a caller writing into a returned table must not poison later answers
     third = q(s0, a, s1)
     sx.check(third == first, 'third-answer-equal')
@@ -309,7 +312,7 @@ def h_history_rays(sx):
     oy = int(sx.int('oy', 0, 2))
     ox = int(sx.int('ox', 0, 2))
     area = Area((0, 2), (0, 2))
-    RT.cached_compute_rays_fancy.cache_clear()
+    getattr(RT.cached_compute_rays_fancy, 'cache_clear', lambda: None)()
     first = RT.cached_compute_rays_fancy(Position(oy, ox), area)
     snapshot = [[(p.y, p.x) for p in ray] for ray in first]
     n = int(sx.int('n', 0, 2))
